@@ -43,7 +43,9 @@ RULE = (
     "set_params, attribute assignment or clone().set_params, then used: judged with the parameters in force at call time); equivalent spellings on integer-friendly clouds "
     "(spacing as Python int/float, numpy integer/floating, 0-d array; pairs and regions as tuple/list/ndarray of floats or integers; "
     "shape as tuple/list/ndarray of numpy ints; flags as np.bool_ and 1/0; the reference converts with float()/int()/bool()) and "
-    "falsy-but-valid values (an extra coordinate that is 0 everywhere, weights exactly 1, a data component of zeros). Non-trivial = at least 2 occupied blocks, a block with >= 2 members whose data differ, and an empty block "
+    "falsy-but-valid values (an extra coordinate that is 0 everywhere, weights exactly 1, a data component of zeros); large calls with "
+    "130 000 / 230 000 / 262 145 points (never a multiple of 100 000) in thousands of blocks of very different populations for "
+    "sum / mean / median, judged like every other call down to the last points of the input. Non-trivial = at least 2 occupied blocks, a block with >= 2 members whose data differ, and an empty block "
     "present; distinct = hash of (coordinates, data, weights, configuration)."
 )
 ASSUMPTIONS = [
@@ -89,6 +91,7 @@ FLOORS = {
         "class:reduction:callable:numpy.ptp": 40, "class:reduction:callable:numpy.prod": 35,
         "class:reduction:callable:user.std": 36, "class:reduction:callable:user.var": 34,
         "class:reduction:callable:user.mean": 30, "single_member_blocks_judged_for_spread_statistics(expected 0, not NaN)": 1100,
+        "class:more_than_100000_points": 2,
     },
     "thorough": {
         "eval:filter_layout": 16800, "eval:labels_vs_reference_geometry": 16800, "eval:params_unchanged_by_filter": 16900,
@@ -124,7 +127,7 @@ FLOORS = {
         "class:reduction:callable:numpy.ptp": 600, "class:reduction:callable:numpy.prod": 600,
         "class:reduction:callable:user.std": 610, "class:reduction:callable:user.var": 640,
         "class:reduction:callable:user.mean": 630,
-        "single_member_blocks_judged_for_spread_statistics(expected 0, not NaN)": 19500,
+        "single_member_blocks_judged_for_spread_statistics(expected 0, not NaN)": 19500, "class:more_than_100000_points": 12,
     },
 }
 JOBS = {"quick": 1, "thorough": 16}
@@ -134,8 +137,8 @@ CALLS_PER_CASE = 8
 
 def plan(tier):
     if tier == "quick":
-        return collections.OrderedDict(random=140, edges=32, series=42, tiny=10, refused=3, nested=8, reuse=24, inplace=14, reconfigure=30, spellings=40)
-    return collections.OrderedDict(random=2100, edges=480, series=640, tiny=120, refused=14, nested=100, reuse=360, inplace=210, reconfigure=450, spellings=600)
+        return collections.OrderedDict(random=140, edges=32, series=42, tiny=10, refused=3, nested=8, reuse=24, inplace=14, reconfigure=30, spellings=40, large=2)
+    return collections.OrderedDict(random=2100, edges=480, series=640, tiny=120, refused=14, nested=100, reuse=360, inplace=210, reconfigure=450, spellings=600, large=18)
 
 
 def value_range(values):
@@ -385,6 +388,36 @@ def _one_call(run, rng, verde, layout=None, weighted=None, edges=False, npoints=
             "easting": east, "northing": north, "data": data, "weights": weights, "result_coordinates": result[0], "result_data": result[1]}
 
 
+def _large_call(run, rng, verde, index):
+    """
+    More than 100 000 points in one call (130 000 / 230 000 / 262 145: never a multiple of 100 000), non-constant data, for
+    sum / mean / median (now and then np.average with weights): every block - those fed by the last points of the input
+    included - is recomputed from the sorted reference membership like in any other call.
+    """
+    quick = run.tier == "quick"
+    n = blk.LARGE_COUNTS[(index + run.seed) % 3] if not quick else blk.LARGE_COUNTS[0 if index == 0 else 1 + (run.seed % 2)]
+    east, north = blk.large_cloud(rng, n)
+    kwargs = blk.large_blocks(rng, east, north, int(rng.integers(2500, 6000)) if quick else int(rng.integers(4000, 40000)))
+    reduction = [np.mean, np.median, np.sum][(index + run.seed) % 3]
+    weights = None
+    if not quick and rng.random() < 0.2:
+        reduction, weights = np.average, 10 ** rng.uniform(-2, 2, n)
+    ncomp = 1 if quick else int(rng.choice([1, 2]))
+    data = [blk.large_field(rng, east, north, amplitude=float(10 ** rng.uniform(-1, 4))) for _ in range(ncomp)]
+    if rng.random() < 0.3:
+        data[0] = np.round(data[0] / np.max(np.abs(data[0])) * 20000).astype("int32")
+    coords = (east, north)
+    if rng.random() < 0.3:
+        coords = (east, north, blk.large_field(rng, east, north, amplitude=10.0))
+        kwargs["drop_coords"] = False
+    with warnings.catch_warnings():
+        warnings.simplefilter("ignore")
+        out_coords, out = verde.BlockReduce(reduction, **kwargs).filter(
+            coords, data[0] if ncomp == 1 else tuple(data), None if weights is None else (weights if ncomp == 1 else (weights, weights[::-1].copy())))
+    run.sample("more_than_100000_points", {"points": n, "reduction": reduction.__name__, "kwargs": kwargs, "blocks_with_data": int(np.size(out_coords[0])),
+                                           "last_points": {"easting": east[-3:], "northing": north[-3:], "data": data[0][-3:]}})
+
+
 def _history(run, rng, verde, inplace):
     """
     Several filter calls on ONE BlockReduce instance (and on clones taken after a call). Every return is judged by the monitor
@@ -503,6 +536,9 @@ def _reconfigured(run, rng, verde):
 def run_case(run, tap, stream, index, rng):
     import verde
 
+    if stream == "large":
+        _large_call(run, rng, verde, index)
+        return
     if stream == "spellings":
         for _ in range(CALLS_PER_CASE):
             info = _one_call(run, rng, verde, spelled=True, layout=str(rng.choice(["1d", "1d", "2d", "series", "readonly"])))
